@@ -78,7 +78,7 @@ def check_concrete(c: Contract, fn: Callable, args: dict, call: Callable | None 
             for en, condfn in c.raises:
                 if condfn(CONC, pre):
                     failures.append(f"returns-only-when-not[{en}]")
-            if c.ensures:
+            if c.ensures and not failures:  # (the postcondition presupposes a call that may return at all)
                 post = SimpleNamespace(**{p: live[p] for p in c.modifies})
                 for name, ok in c.ensures(CONC, pre, r, post).items():
                     if not ok:
